@@ -178,6 +178,10 @@ def plan(tier, seed):
         tasks.append(("D", tier, first))
     tasks.append(("U", tier))
     tasks.append(("H", tier))
+    # specification constructs (derived types with parameters / bindings,
+    # interfaces, enums) as mutation bases
+    for cname, _ in G.SPEC_CONSTRUCTS:
+        tasks.append(("SC", tier, cname))
     # valid programs with comment / unresolved INCLUDE / preprocessor lines in
     # the gaps (inputs a robust parser meets constantly), also as mutation bases
     names_b = [n for n, _ in G.EXEC_CONSTRUCTS]
@@ -264,6 +268,18 @@ def run(task):
             res.sample({"file_bytes": repr(base[:20] + b"\xff" + base[21:40])})
         finally:
             shutil.rmtree(tmp, ignore_errors=True)
+    elif kind == "SC":
+        from mc import scenarios
+
+        alphabet = ALPHABET[: b["alphabet"]]
+        sc = scenarios.spec_scenario("module", task[2])
+        for vec, ch, prog in explore.explore(sc, 1):
+            stmts = tokens_of_prog(prog)
+            base = render(stmts)
+            inner = set(range(1, len(prog) - 1))
+            for desc, pos, m in itertools.chain(token_mutants(stmts, alphabet[:6] if vec else alphabet[:12], only=inner), line_mutants(stmts)):
+                run_one(res, render(m), "f2008", True, "S/%s%s %s@%s" % (task[2], list(vec), desc, pos), base)
+        res.sample({"spec_construct": task[2], "base": base})
     elif kind == "H":
         # sequences of parses with ONE parser object (no table clearing in
         # between) and texts that repeat a unit name - unit names in mixed case
